@@ -141,14 +141,17 @@ class Lemma:
     goal: str
     text: str = ''
     theory: tuple = ()
+    steps: tuple = ()          # calc-style intermediate goals: each proved, then available to the next
 
 
 LEMMAS: list = []
 SPEC_DEFS: dict = {}     # name -> (param names, expression ast, text)
 
 
-def lemma(key, name, *, props=(), vars=None, hyps=(), goal='True', text='', theory=()):
-    LEMMAS.append(Lemma(key, name, tuple(props), dict(vars or {}), list(hyps), goal, text or goal, tuple(theory)))
+def lemma(key, name, *, props=(), vars=None, hyps=(), goal='True', text='', theory=(), steps=(), lets=None):
+    lm = Lemma(key, name, tuple(props), dict(vars or {}), list(hyps), goal, text or goal, tuple(theory), tuple(steps))
+    lm.lets = dict(lets or {})
+    LEMMAS.append(lm)
 
 
 def spec_def(name, params, text):
